@@ -20,6 +20,10 @@ type C02Case struct {
 }
 
 func genC02(g gen.G) C02Case {
+	if g.Chance(30) {
+		// a world in which references resolve: ranges derived from matched targets and origins
+		return C02Case{World: g.RefWorld(g.Int(1, 2), false)}
+	}
 	o := gen.WorldOpts{
 		Schema:   gen.SchemaOpts{MaxDepth: 2},
 		Cfg:      gen.CfgOpts{Violations: 6, Layout: true, HalfTyped: 6},
